@@ -420,4 +420,13 @@ def main():
 
 
 if __name__ == "__main__":
-    sys.exit(main())
+    try:
+        rc = main()
+    except SystemExit:
+        raise
+    except BaseException as e:  # a failure of the machinery itself is never reported as exit 1 (= violation)
+        import traceback
+        traceback.print_exc()
+        print("ENGINE-ERROR runner failed: %r" % (e,), flush=True)
+        rc = 2
+    sys.exit(rc)
